@@ -17,6 +17,9 @@ RECURSIVE Flat(_)
 Flat(ss) == IF ss = <<>> THEN <<>> ELSE Head(ss) \o Flat(Tail(ss))
 Expected(e) == Set(Flat(e.solo))            \* rules applied one after the other, duplicates removed
 
+Count(s, x) == Cardinality({k \in DOMAIN s : s[k] = x})
+SameBag(s, t) == Len(s) = Len(t) /\ \A k \in DOMAIN s : Count(s, s[k]) = Count(t, s[k])
+
 RECURSIVE RunsFrom(_, _)
 RunsFrom(c, k) ==
    IF k > Len(c.runs) THEN "ok"
@@ -24,6 +27,8 @@ RunsFrom(c, k) ==
             bad == {e \in DOMAIN c.entries : e > Len(r.out) \/ Set(r.out[e]) # Expected(c.entries[e])}
             v == IF Len(r.out) # Len(c.entries) THEN r.cfg \o ":wrong-number-of-entries"
                  ELSE IF bad # {} THEN r.cfg \o ":entry-result-differs-from-applying-the-rules-to-it-alone"
+                 (* the configuration is operational only: the same list, up to order, as under the first configuration *)
+                 ELSE IF \E e \in DOMAIN c.entries : ~SameBag(r.out[e], c.runs[1].out[e]) THEN r.cfg \o ":entry-result-list-differs-from-the-first-configuration's"
                  ELSE "ok"
             rest == RunsFrom(c, k + 1)
         IN IF v = "ok" THEN rest ELSE IF rest = "ok" THEN v ELSE v \o ";" \o rest
